@@ -13,7 +13,7 @@ excluded, and the reference's code-line selection must equal gcc's.
 import os
 import re
 
-from ..core import env, gcc, par, shrink
+from ..core import env, gcc, par, result, shrink
 from ..core.result import Failure, Report, robust
 from ..ref import cond
 
@@ -160,9 +160,9 @@ def _e1(arg):
                 gccjobs.append((program, ci, e))
     out = []
     seen = set()
-    for program, ci in fails:
-        f = robust(mk_failure, {"lines": lines_of(program, ext), "config": CONFIGS[ci][0], "defines": CONFIGS[ci][1]}, program, ci, ext)
-        if f and f.key() not in seen:
+    wit = lambda pc: {"lines": lines_of(pc[0], ext), "config": CONFIGS[pc[1]][0], "defines": CONFIGS[pc[1]][1]}  # noqa
+    for f in result.shrink_within_budget(fails, lambda pc: robust(mk_failure, wit(pc), pc[0], pc[1], ext), wit):
+        if f.key() not in seen:
             seen.add(f.key())
             out.append(f)
     gstat = _gcc_validate(gccjobs) if gccjobs else (0, 0, [])
